@@ -62,6 +62,8 @@ def run_reader_check(v, prop, tier, ops_of_interest, ev):
     variants.append(dict(stack="comp+enc", seed=seed() + 6, level=0, entropy="low", nrecip=2, reader=1))
     # a reader configuration that also carries the fail-safe option (meant for repair only): nothing may change
     variants.append(dict(stack="enc", seed=seed() + 7, level=5, fsopt=True))
+    # contents made of the format's own structural bytes (block types, magic, 0x00/0xFF runs)
+    variants.append(dict(stack="raw", seed=seed() + 8, level=5, entropy="struct"))
     build("s20")
 
     def execute(i, par, the_runs, suffix=""):
